@@ -280,7 +280,8 @@ func init() {
 	SeqFamilies["C08"] = c08Chunks
 	register(&Family{
 		Property: "C08",
-		Rule: "BarFiller.Fill of four styles (ASCII, reversed, 2-column filler, 2-column tip) driven directly with every (total, current, refill) of the cube {-1..8}^3 (thorough {-1..24}^3) at widths {0..4,7,10,17,40,80} (thorough 0..40,80,100,200), " +
+		Rule: "also: the small cube walked with the total moving while current and width stand still, all under one filler instance; " +
+			"BarFiller.Fill of four styles (ASCII, reversed, 2-column filler, 2-column tip) driven directly with every (total, current, refill) of the cube {-1..8}^3 (thorough {-1..24}^3) at widths {0..4,7,10,17,40,80} (thorough 0..40,80,100,200), " +
 			"and with every (total,current) pair of a boundary lattice {0..3, 2^k-1, 2^k, 2^k+1 for k in 31,32,53,62 (thorough every k in 4..62), 2^63-1, (2^63-1)/2, floor((2^64-1)/w)+-1} with refill in {0, current/2}. " +
 			"Oracle: output decomposes into the style's components; filled+tip cells == round(inner*current/total) computed in math/big (tolerance one cell for 2-column runes and for operands above 2^53); refill <= filled; along each chain of increasing current the filled count never decreases (which covers all pairs). Non-trivial = 0 < expected < inner. Every terminating case is re-executed on the unmodified package and the output digests are compared.",
 		Items: func(tier string) []Item { return seqItems("C08", tier) },
